@@ -28,6 +28,9 @@ theories/Proofs/EvalProofs.vos theories/Proofs/EvalProofs.vok theories/Proofs/Ev
 theories/Proofs/ExprLemmas.vo theories/Proofs/ExprLemmas.glob theories/Proofs/ExprLemmas.v.beautified theories/Proofs/ExprLemmas.required_vo: theories/Proofs/ExprLemmas.v theories/Model/Expr.vo
 theories/Proofs/ExprLemmas.vio: theories/Proofs/ExprLemmas.v theories/Model/Expr.vio
 theories/Proofs/ExprLemmas.vos theories/Proofs/ExprLemmas.vok theories/Proofs/ExprLemmas.required_vos: theories/Proofs/ExprLemmas.v theories/Model/Expr.vos
+theories/Proofs/WitnessEquivProofs.vo theories/Proofs/WitnessEquivProofs.glob theories/Proofs/WitnessEquivProofs.v.beautified theories/Proofs/WitnessEquivProofs.required_vo: theories/Proofs/WitnessEquivProofs.v theories/Model/WitnessIO.vo theories/Proofs/WitnessTextLemmas.vo theories/Proofs/WitnessIOProofs.vo
+theories/Proofs/WitnessEquivProofs.vio: theories/Proofs/WitnessEquivProofs.v theories/Model/WitnessIO.vio theories/Proofs/WitnessTextLemmas.vio theories/Proofs/WitnessIOProofs.vio
+theories/Proofs/WitnessEquivProofs.vos theories/Proofs/WitnessEquivProofs.vok theories/Proofs/WitnessEquivProofs.required_vos: theories/Proofs/WitnessEquivProofs.v theories/Model/WitnessIO.vos theories/Proofs/WitnessTextLemmas.vos theories/Proofs/WitnessIOProofs.vos
 theories/Proofs/WitnessIOProofs.vo theories/Proofs/WitnessIOProofs.glob theories/Proofs/WitnessIOProofs.v.beautified theories/Proofs/WitnessIOProofs.required_vo: theories/Proofs/WitnessIOProofs.v theories/Model/WitnessIO.vo theories/Proofs/WitnessTextLemmas.vo
 theories/Proofs/WitnessIOProofs.vio: theories/Proofs/WitnessIOProofs.v theories/Model/WitnessIO.vio theories/Proofs/WitnessTextLemmas.vio
 theories/Proofs/WitnessIOProofs.vos theories/Proofs/WitnessIOProofs.vok theories/Proofs/WitnessIOProofs.required_vos: theories/Proofs/WitnessIOProofs.v theories/Model/WitnessIO.vos theories/Proofs/WitnessTextLemmas.vos
@@ -37,6 +40,6 @@ theories/Proofs/WitnessTextLemmas.vos theories/Proofs/WitnessTextLemmas.vok theo
 theories/Props/C06.vo theories/Props/C06.glob theories/Props/C06.v.beautified theories/Props/C06.required_vo: theories/Props/C06.v theories/Model/EvalImpl.vo theories/Proofs/EvalProofs.vo theories/Proofs/EvalImplProofs.vo
 theories/Props/C06.vio: theories/Props/C06.v theories/Model/EvalImpl.vio theories/Proofs/EvalProofs.vio theories/Proofs/EvalImplProofs.vio
 theories/Props/C06.vos theories/Props/C06.vok theories/Props/C06.required_vos: theories/Props/C06.v theories/Model/EvalImpl.vos theories/Proofs/EvalProofs.vos theories/Proofs/EvalImplProofs.vos
-theories/Props/C16.vo theories/Props/C16.glob theories/Props/C16.v.beautified theories/Props/C16.required_vo: theories/Props/C16.v theories/Model/WitnessIO.vo theories/Proofs/WitnessTextLemmas.vo theories/Proofs/WitnessIOProofs.vo
-theories/Props/C16.vio: theories/Props/C16.v theories/Model/WitnessIO.vio theories/Proofs/WitnessTextLemmas.vio theories/Proofs/WitnessIOProofs.vio
-theories/Props/C16.vos theories/Props/C16.vok theories/Props/C16.required_vos: theories/Props/C16.v theories/Model/WitnessIO.vos theories/Proofs/WitnessTextLemmas.vos theories/Proofs/WitnessIOProofs.vos
+theories/Props/C16.vo theories/Props/C16.glob theories/Props/C16.v.beautified theories/Props/C16.required_vo: theories/Props/C16.v theories/Model/WitnessIO.vo theories/Proofs/WitnessTextLemmas.vo theories/Proofs/WitnessIOProofs.vo theories/Proofs/WitnessEquivProofs.vo
+theories/Props/C16.vio: theories/Props/C16.v theories/Model/WitnessIO.vio theories/Proofs/WitnessTextLemmas.vio theories/Proofs/WitnessIOProofs.vio theories/Proofs/WitnessEquivProofs.vio
+theories/Props/C16.vos theories/Props/C16.vok theories/Props/C16.required_vos: theories/Props/C16.v theories/Model/WitnessIO.vos theories/Proofs/WitnessTextLemmas.vos theories/Proofs/WitnessIOProofs.vos theories/Proofs/WitnessEquivProofs.vos
